@@ -28,5 +28,22 @@ for p in C01 C02 C03 C04 C05 C06 C07 C08 C09 C10 C11 C12 C13 C14 C17 C18 C19; do
         rc=2
     fi
 done
+# cross-profile: on a tree where the properties hold, the checked-profile build (debug assertions,
+# overflow checks) must produce the same event logs as the release-like build
+C=/verif/target/checked/anysim
+if [ -x "$C" ]; then
+    for p in C01 C02 C06 C10; do
+        "$T" selftest-determinism $p 2000 0 > "$W/rel-$p" &
+        "$C" selftest-determinism $p 2000 0 > "$W/chk-$p" &
+        wait
+        if cmp -s "$W/rel-$p" "$W/chk-$p"; then
+            echo "selftest $p: 2000 runs identical in the release-like and the checked profile"
+        else
+            echo "selftest $p: event logs differ between the release-like and the checked profile" >&2
+            diff "$W/rel-$p" "$W/chk-$p" | head -5 >&2
+            rc=2
+        fi
+    done
+fi
 rm -rf "$W"
 exit $rc
